@@ -278,6 +278,15 @@ func wrap(value string) string {
 	return value
 }
 
+// underlying converts a value of a named basic type to its underlying basic type,
+// since a named uint64 cannot be added to the hash and a named float is not accepted by the math package.
+func underlying(value string, typ types.Type, basic *types.Basic) string {
+	if _, isBasic := typ.(*types.Basic); isBasic {
+		return value
+	}
+	return basic.Name() + "(" + value + ")"
+}
+
 func hasHashMethod(typ *types.Named) bool {
 	for i := 0; i < typ.NumMethods(); i++ {
 		meth := typ.Method(i)
@@ -321,11 +330,11 @@ func (g *gen) field(fieldName string, fieldType types.Type) (string, error) {
 			types.Uintptr, types.UnsafePointer, types.UntypedInt:
 			return fmt.Sprintf("uint64(%s)", fieldName), nil
 		case types.Uint64:
-			return fmt.Sprintf("%s", fieldName), nil
+			return fmt.Sprintf("%s", underlying(fieldName, fieldType, typ)), nil
 		case types.Float32:
-			return fmt.Sprintf("uint64(%s.Float32bits(%s))", g.mathPkg(), fieldName), nil
+			return fmt.Sprintf("uint64(%s.Float32bits(%s))", g.mathPkg(), underlying(fieldName, fieldType, typ)), nil
 		case types.Float64:
-			return fmt.Sprintf("%s.Float64bits(%s)", g.mathPkg(), fieldName), nil
+			return fmt.Sprintf("%s.Float64bits(%s)", g.mathPkg(), underlying(fieldName, fieldType, typ)), nil
 		case types.Complex64:
 			return fmt.Sprintf("(31 * ((31 * 17) + uint64(%s.Float32bits(real(%s))))) + uint64(%s.Float32bits(imag(%s)))", g.mathPkg(), fieldName, g.mathPkg(), fieldName), nil
 		case types.Complex128:
